@@ -157,7 +157,7 @@ PROPS.update({
     "C06": mpx_prop("C06", ["inv_reachable", "no_panic", "state_while_held", "late_frame_dropped", "unrepaired_counterexample"],
                     ev("channel_acquire", "channel_tryAcquire", "channel_release", "channel_free", "channel_Free", "channel_receive",
                        "conn_receiveClose", "conn_receiveData", "conn_receiveWindow", "conn_sendHandle", "conn_closeChannels", "conn_createChannel", "channel_closeUser"),
-                    [scen("c06", "{bin}/mpxscen", "c06", "{seed}", "{tier}", "skip=5"), scen("stall", "{bin}/mpxscen", "stall", "{seed}", "{tier}"), scen("probe", "{bin}/mpxprobe")],
+                    [scen("c06", "{bin}/mpxscen", "c06", "{seed}", "{tier}"), scen("stall", "{bin}/mpxscen", "stall", "{seed}", "{tier}"), scen("probe", "{bin}/mpxprobe")],
                     ["mpxscen", "mpxprobe"],
                     extra={"assumptions": ["one Free per channel object by its owner (the user on the client side, the handler runner on the server side); a second Free is API misuse and panics by design",
                                            "atomic operations of sync/atomic are linearizable"]}),
@@ -284,7 +284,7 @@ PROPS.update({
                     # detector's verdict is judged (race_only)
                     scen("client-race", "{bin}/mpxclient.race", "scen", "{seed}", "quick", tiers=["thorough"], timeout=1500, race_only=True),
                     scen("c03-race", "{bin}/mpxscen.race", "c03", "{seed}", "quick", tiers=["thorough"], timeout=1500, race_only=True),
-                    scen("c06-race", "{bin}/mpxscen.race", "c06", "{seed}", "quick", "skip=5", tiers=["thorough"], timeout=1500, race_only=True),
+                    scen("c06-race", "{bin}/mpxscen.race", "c06", "{seed}", "quick", tiers=["thorough"], timeout=1500, race_only=True),
                     scen("c20-race", "{bin}/mpxfault.race", "c20", "{seed}", "quick", tiers=["thorough"], timeout=1500, race_only=True),
                     scen("c09-race", "{bin}/mpxfault.race", "c09", "{seed}", "quick", tiers=["thorough"], timeout=1500, race_only=True),
                     scen("c04-race", "{bin}/rpcscen.race", "c04", "{seed}", "quick", tiers=["thorough"], timeout=1500, race_only=True)],
